@@ -214,6 +214,19 @@ impl Prop for C03 {
                 return out;
             }
         };
+        // the same tokenizer object used again: another text in between must not change the answer
+        {
+            let other: String = text.chars().rev().take(24).collect();
+            let _ = tok.tokenize(&other, true);
+            let _ = tok.tokenize("", true);
+            match tok.tokenize(&text, true) {
+                Ok(t) => ensure!(out, t.token_ids == got, "the same tokenizer gives a different answer for the same text after tokenizing another text in between"),
+                Err(e) => {
+                    out.fail(format!("second tokenize of the same text failed: {e}"));
+                    return out;
+                }
+            }
+        }
         let mut want: Vec<u32> = vec![];
         for w in model::split_ws_words(&text) {
             if w.len() > 400 {
